@@ -274,6 +274,7 @@ pub fn extract_tls_signature_from_client_hello(
     let mut signature_algorithms = Vec::new();
     let mut elliptic_curves = Vec::new();
     let mut elliptic_curve_point_formats = Vec::new();
+    let mut offered_versions: Option<Vec<u16>> = None;
 
     // Parse extensions if present - if not present, we still generate JA4 with empty extension fields
     if let Some(ext_data) = &client_hello.ext {
@@ -307,6 +308,9 @@ pub fn extract_tls_signature_from_client_hello(
                         TlsExtension::EcPointFormats(formats) => {
                             elliptic_curve_point_formats = formats.to_vec();
                         }
+                        TlsExtension::SupportedVersions(versions) => {
+                            offered_versions = Some(versions.iter().map(|v| v.0).collect());
+                        }
                         _ => {}
                     }
                 }
@@ -317,7 +321,21 @@ pub fn extract_tls_signature_from_client_hello(
         }
     }
 
-    let version = determine_tls_version(&client_hello.version, &extensions);
+    // JA4: when supported_versions is present the version is its highest non-GREASE
+    // entry (a client may offer only older versions there), otherwise the legacy version.
+    let highest_offered = offered_versions
+        .as_ref()
+        .and_then(|versions| {
+            versions
+                .iter()
+                .filter(|v| !TLS_GREASE_VALUES.contains(v))
+                .max()
+        })
+        .copied();
+    let version = match highest_offered {
+        Some(offered) => determine_tls_version(&tls_parser::TlsVersion(offered), &[]),
+        None => determine_tls_version(&client_hello.version, &extensions),
+    };
 
     Ok(Signature {
         version,
